@@ -14,7 +14,9 @@ import schedprop
 import schedupper
 import seqextra
 
-THEOREMS = {"C01.v": json.load(open(os.path.join(os.path.dirname(__file__), "_theorems.json")))["C01"]}
+THEOREMS = {"C01.v": json.load(open(os.path.join(os.path.dirname(__file__), "_theorems.json")))["C01"],
+            # links between the machines and the sequential models (solo runs)
+            "Links.v": ["Link_M1_solo_is_sequential", "Link_M2_solo_is_sequential", "Link_UpperInv_SInv"]}
 
 
 def jobs(ctx, rel):
